@@ -10,6 +10,9 @@ pub(super) fn detect_cycles(ast: &Ast, diagnostics: &mut Diagnostics) {
     let mut cycle_detector = CycleDetector {
         type_being_checked: None,
         dependency_stack: Vec::new(),
+        dead_ends: HashSet::new(),
+        anonymous_dead_ends: HashSet::new(),
+        search_events: 0,
         reported_cycles: HashSet::new(),
         diagnostics,
     };
@@ -42,6 +45,8 @@ pub(super) fn detect_cycles(ast: &Ast, diagnostics: &mut Diagnostics) {
         };
 
         debug_assert!(cycle_detector.dependency_stack.is_empty());
+        cycle_detector.dead_ends.clear();
+        cycle_detector.anonymous_dead_ends.clear();
         cycle_detector.type_being_checked = Some((candidate.module_scoped_identifier(), candidate));
         candidate.check_for_cycles(&mut cycle_detector)
     }
@@ -77,6 +82,17 @@ struct CycleDetector<'a> {
     /// Each stack element is made up of the type-id of the field's type, and a reference to the field itself.
     dependency_stack: Vec<(String, &'a Field)>,
 
+    /// Stores the type-ids of the types that were searched through completely without finding any way back to the type
+    /// currently being checked. Searching through them again (because several fields use them) can't find one either.
+    dead_ends: HashSet<String>,
+
+    /// Like `dead_ends`, but for anonymous types (which have no type-id, so they're identified by their address).
+    anonymous_dead_ends: HashSet<*const ()>,
+
+    /// Counts how many times the search found the type currently being checked, or had to skip a type because it was
+    /// already on the dependency stack. A search during which this doesn't change was complete, and found nothing.
+    search_events: usize,
+
     /// Stores all the cycles we've reported so far, so we can avoid reporting duplicates.
     reported_cycles: HashSet<BTreeSet<String>>,
 
@@ -92,24 +108,33 @@ impl<'a> CycleDetector<'a> {
     }
 
     fn check_field_type_for_cycles(&mut self, type_ref: &'a TypeRef, origin: &'a Field) {
-        match type_ref.concrete_type() {
+        let nested_types = match type_ref.concrete_type() {
             // For struct or enum types, we push them onto the stack, and attempt to recursively check them.
-            Types::Struct(struct_ref) => self.push_to_stack_and_check(struct_ref, origin),
-            Types::Enum(enum_ref) => self.push_to_stack_and_check(enum_ref, origin),
+            Types::Struct(struct_ref) => return self.push_to_stack_and_check(struct_ref, origin),
+            Types::Enum(enum_ref) => return self.push_to_stack_and_check(enum_ref, origin),
 
-            Types::ResultType(result_type) => {
-                self.check_field_type_for_cycles(&result_type.success_type, origin);
-                self.check_field_type_for_cycles(&result_type.failure_type, origin);
-            }
-
-            Types::Sequence(sequence) => self.check_field_type_for_cycles(&sequence.element_type, origin),
-            Types::Dictionary(dictionary) => {
-                self.check_field_type_for_cycles(&dictionary.key_type, origin);
-                self.check_field_type_for_cycles(&dictionary.value_type, origin);
-            }
+            // For anonymous types, we check the types nested inside of them.
+            Types::ResultType(result_type) => vec![&result_type.success_type, &result_type.failure_type],
+            Types::Sequence(sequence) => vec![&sequence.element_type],
+            Types::Dictionary(dictionary) => vec![&dictionary.key_type, &dictionary.value_type],
 
             // Primitive and custom types are terminal since they can't reference any other types.
-            Types::Primitive(_) | Types::CustomType(_) => {}
+            Types::Primitive(_) | Types::CustomType(_) => return,
+        };
+
+        // An anonymous type can be used by many fields (through type aliases). Like the named types, if it was already
+        // searched through completely without finding a way back to the type we're checking, it is a dead end.
+        let address = type_ref.definition() as *const dyn Type as *const ();
+        if self.anonymous_dead_ends.contains(&address) {
+            return;
+        }
+
+        let search_events_before = self.search_events;
+        for nested_type in nested_types {
+            self.check_field_type_for_cycles(nested_type, origin);
+        }
+        if self.search_events == search_events_before {
+            self.anonymous_dead_ends.insert(address);
         }
     }
 
@@ -118,6 +143,7 @@ impl<'a> CycleDetector<'a> {
 
         // If the candidate's type is the type we're checking, then its definition is cyclic and we report an error.
         if self.type_being_checked.as_ref().unwrap().0 == candidate_type_string {
+            self.search_events += 1;
             // We still push the offending field onto the stack so we can use it in the error message.
             self.dependency_stack.push((candidate_type_string, origin));
             self.report_cycle_error();
@@ -130,22 +156,50 @@ impl<'a> CycleDetector<'a> {
         // candidate isn't the cause of the cycle, just a link or offshoot of it.
         for (seen_type_id, _) in &self.dependency_stack {
             if seen_type_id == &candidate_type_string {
+                self.search_events += 1;
                 return;
             }
         }
 
+        // If the candidate was already searched through completely (it's used by more than one field), and no way back to
+        // the type we're checking was found, searching through it again won't find one either.
+        if self.dead_ends.contains(&candidate_type_string) {
+            return;
+        }
+
         // If we haven't detected any cycles yet, it's safe to continue recursing.
         // Push the current field and its type onto the stack, then check the candidate's fields.
+        let search_events_before = self.search_events;
         self.dependency_stack.push((candidate_type_string, origin));
         candidate.check_for_cycles(self);
-        self.dependency_stack.pop();
+        let (candidate_type_string, _) = self.dependency_stack.pop().unwrap();
+
+        // If nothing was found, and nothing had to be skipped, the candidate is a dead end for the type we're checking.
+        if self.search_events == search_events_before {
+            self.dead_ends.insert(candidate_type_string);
+        }
     }
 
-    /// Checks whether the type that the provided type alias refers to contains itself through anonymous types.
+    /// Checks whether the type that the provided type alias spells out contains itself through anonymous types.
     /// Returns true (after reporting an error) if it does.
     fn check_type_alias_for_cycles(&mut self, type_alias: &TypeAlias) -> bool {
-        let mut path = Vec::new();
-        if !Self::anonymous_type_contains_itself(&type_alias.underlying, &mut path) {
+        let underlying = &type_alias.underlying;
+
+        // An alias that just names another alias shares that alias' type. Only the alias that spells the anonymous type
+        // out is at fault for it; so we only check aliases whose nested types are written inside their own declaration.
+        let Some(nested_types) = Self::nested_types_of(underlying) else { return false };
+        let spells_out_its_type = nested_types.iter().all(|nested| {
+            let (inner, outer) = (nested.span(), underlying.span());
+            inner.file == outer.file && inner.start >= outer.start && inner.end <= outer.end
+        });
+        if !spells_out_its_type {
+            return false;
+        }
+
+        // Search through the anonymous types nested inside the aliased type for a way back to the aliased type itself.
+        // Each anonymous type is only searched through once, even if it's used (through other aliases) many times.
+        let mut searched_types = Vec::new();
+        if !Self::leads_back_to(Self::address_of(underlying), underlying, &mut searched_types) {
             return false;
         }
 
@@ -158,27 +212,45 @@ impl<'a> CycleDetector<'a> {
         true
     }
 
-    /// Walks through the anonymous types (sequences, dictionaries, and results) that `type_ref` is made of, and returns
-    /// true if one of them is reached again from itself. `path` holds the anonymous types on the path being walked.
-    fn anonymous_type_contains_itself(type_ref: &TypeRef, path: &mut Vec<*const ()>) -> bool {
-        let nested_types = match type_ref.concrete_type() {
-            Types::Sequence(sequence) => vec![&sequence.element_type],
-            Types::Dictionary(dictionary) => vec![&dictionary.key_type, &dictionary.value_type],
-            Types::ResultType(result_type) => vec![&result_type.success_type, &result_type.failure_type],
-            // Named types and primitives end the walk; cycles through structs and enums are checked separately.
-            _ => return false,
-        };
-
-        // Anonymous types have no identifier; they're identified by their address.
-        let address = type_ref.definition() as *const dyn Type as *const ();
-        if path.contains(&address) {
-            return true;
+    /// Returns the types nested directly inside of `type_ref` if it refers to an anonymous type (a sequence, dictionary,
+    /// or result), and `None` otherwise. Named types and primitives end the search; cycles through structs and enums
+    /// are checked separately.
+    fn nested_types_of(type_ref: &TypeRef) -> Option<Vec<&TypeRef>> {
+        match type_ref.concrete_type() {
+            Types::Sequence(sequence) => Some(vec![&sequence.element_type]),
+            Types::Dictionary(dictionary) => Some(vec![&dictionary.key_type, &dictionary.value_type]),
+            Types::ResultType(result_type) => Some(vec![&result_type.success_type, &result_type.failure_type]),
+            _ => None,
         }
+    }
 
-        path.push(address);
-        let contains_itself = nested_types.into_iter().any(|nested| Self::anonymous_type_contains_itself(nested, path));
-        path.pop();
-        contains_itself
+    /// Anonymous types have no identifier; they're identified by their address.
+    fn address_of(type_ref: &TypeRef) -> *const () {
+        type_ref.definition() as *const dyn Type as *const ()
+    }
+
+    /// Returns true if the anonymous type at `target` can be reached through the types nested inside of `type_ref`.
+    /// `searched_types` holds the anonymous types that have already been searched through.
+    fn leads_back_to(target: *const (), type_ref: &TypeRef, searched_types: &mut Vec<*const ()>) -> bool {
+        let Some(nested_types) = Self::nested_types_of(type_ref) else { return false };
+        for nested in nested_types {
+            // Only anonymous types can lead anywhere.
+            if Self::nested_types_of(nested).is_none() {
+                continue;
+            }
+
+            let address = Self::address_of(nested);
+            if address == target {
+                return true;
+            }
+            if !searched_types.contains(&address) {
+                searched_types.push(address);
+                if Self::leads_back_to(target, nested, searched_types) {
+                    return true;
+                }
+            }
+        }
+        false
     }
 
     /// Checks whether the provided interface inherits from itself, either directly or through its base interfaces.
